@@ -93,6 +93,10 @@ class BackgroundTimePDF(
         """
         times = tdm.get_data('time')
 
+        # The live-time and the time flux profile instances might have been
+        # changed since the last trial.
+        self._update_S()
+
         self._pd = np.zeros((len(times),), dtype=np.float64)
 
         # Get a mask of the event times which fall inside a detector on-time
